@@ -53,6 +53,10 @@ LITERAL_VARIANTS = {
     'ifliteral.chars().any(|c|c.is_ascii_alphanumeric()){format!("\\"{literal}\\"")}else{literal.replace(\'"\',"\\\\\\"").replace(\'\\\'\',"\\"\\\'\\"").replace(\'%\',"\\\\%")}': 1,
     # mysql, duckdb: ' -> '' and % -> %%
     'literal.replace(\'\\\'\',"\'\'").replace(\'%\',"%%")': 2,
+    # after fixes/C02-N10 (the quote is escaped once, by translate_literal): postgres-like, mysql-like, clickhouse
+    'ifliteral.chars().any(|c|c.is_ascii_alphanumeric()){format!("\\"{literal}\\"")}else{literal.replace(\'"\',"\\\\\\"")}': 4,
+    'literal.replace(\'%\',"%%")': 5,
+    'ifliteral.chars().any(|c|c.is_ascii_alphanumeric()){format!("\'{literal}\'")}else{literal.replace(\'\\\'\',"\'\'")}': 6,
     # clickhouse: quote with '...'; else ' -> \'\'
     'ifliteral.chars().any(|c|c.is_ascii_alphanumeric()){format!("\'{literal}\'")}else{literal.replace(\'\\\'\',"\\\\\'\\\\\'")}': 3,
 }
@@ -143,7 +147,7 @@ def generate():
         return {"error": str(ex)}
     v = "(* generated from /repo/%s on every run by vplib/translate/gen_date_format.py -- do not edit *)\n" % DI
     v += "From Coq Require Import List NArith.\nImport ListNotations.\nLocal Open Scope N_scope.\n\n"
-    v += "(* (dialect, [(chrono item, the dialect's spelling)], treatment of a literal chunk: 0 postgres-like, 1 mssql, 2 mysql-like, 3 clickhouse) *)\n"
+    v += "(* (dialect, [(chrono item, the dialect's spelling)], treatment of a literal chunk: 0 postgres-like, 1 mssql, 2 mysql-like, 3 clickhouse; 4 5 6 = 0 2 3 without the SQL pre-escaping of a quote) *)\n"
     v += "Definition date_tables : list (list N * list (list N * list N) * N) :=\n  [ "
     rows = []
     for name, table, lv in info["dialects"]:
